@@ -91,7 +91,7 @@ func genE1Spec(rt *rapid.T, f *e1Focus) adapt.Spec {
 	}
 	s.CB = f.cbBias || rapid.Bool().Draw(rt, "callback")
 	if s.CB {
-		s.Reenter = uint8(irange(rt, 0, 2, "reenter"))
+		s.Reenter = uint8(irange(rt, 0, 3, "reenter"))
 	}
 	s.Cleanup = pick(rt, []int64{-5000000, 0, 0, 1000000000}, "cleanup")
 	if s.Ctor != "default" {
